@@ -290,6 +290,21 @@ impl<'a> Exec<'a> {
         }
     }
 
+    /// The owner panics after its flush was acknowledged: the store is dropped while unwinding.
+    fn do_drop_unwinding(&mut self) {
+        self.held = None;
+        if let Some(rl) = self.rl.take() {
+            let clean = self.flushes.last().map(|f| f.generation == self.generation && f.nrec == self.records.len() && f.with_cb && core::acked(f.fid) == Some(true)).unwrap_or(false);
+            core::ev(HEv::DropBegin { generation: self.generation });
+            let _ = catch_unwind(AssertUnwindSafe(move || {
+                let _owner = rl;
+                panic!("simulated owner panic after the flush acknowledgement");
+            }));
+            core::ev(HEv::DropEnd { generation: self.generation, clean });
+            core::sim().progress();
+        }
+    }
+
     fn rl(&self) -> &RaftLog<TT> {
         self.rl.as_ref().unwrap()
     }
@@ -830,7 +845,8 @@ impl<'a> Exec<'a> {
                 }
             }
             Op::Restart(cfg) => self.do_restart(cfg),
-            Op::RaceRestart(cfg) => self.do_race_restart(cfg),
+            Op::RaceRestart(cfg) => self.do_race_restart(cfg, false),
+            Op::PanicRestart(cfg) => self.do_race_restart(cfg, true),
             Op::WaitIdle => {
                 if !self.faulty && !self.worker_dead_seen && !core::workers_alive().is_empty() {
                     self.probe("wait_idle");
@@ -916,7 +932,7 @@ impl<'a> Exec<'a> {
         }
     }
 
-    fn do_race_restart(&mut self, cfg: &Cfg) {
+    fn do_race_restart(&mut self, cfg: &Cfg, by_panic: bool) {
         let acked = self.do_flush(true, true);
         if acked != Some(true) || self.aborted.is_some() {
             self.abort("race-restart: final flush not acknowledged");
@@ -924,7 +940,12 @@ impl<'a> Exec<'a> {
         }
         let before_state = real_state(self.rl());
         let before_read = self.full_read().unwrap_or_default();
-        self.do_drop();
+        if by_panic {
+            self.do_drop_unwinding();
+            self.probe("dropped_by_unwinding");
+        } else {
+            self.do_drop();
+        }
         let old_alive = !core::workers_alive().is_empty();
         if old_alive {
             self.probe("old_worker_alive_at_reopen");
